@@ -7,7 +7,7 @@
 #ifndef VERIF_STDIO_PROTOCOL_H
 #define VERIF_STDIO_PROTOCOL_H
 #include <stdio.h>
-const char *G_live_path;
+const char *G_live_path; int G_live_ever;
 int G_live_open, G_tmp_open, G_tmp_created, G_tmp_write_failed, G_tmp_writes, G_tmp_flushed, G_tmp_flush_failed, G_renamed, G_tmp_removed, G_reads, G_read_limit;
 static FILE *const G_live_fp = (FILE *)&G_live_open, *const G_tmp_fp = (FILE *)&G_tmp_open;
 _Bool nondet_io_fail(void); uint8_t nondet_io_byte(void);
@@ -15,7 +15,7 @@ FILE *fopen(const char *path, const char *mode) {
   if (path == G_live_path) {
     __CPROVER_assert(mode[0] == 'r' && mode[1] == 0, "the live save file is only ever opened read-only (mode \"r\")");
     if (nondet_io_fail()) return NULL;
-    G_live_open++; return G_live_fp;
+    G_live_open++; G_live_ever++; return G_live_fp;
   }
   if (nondet_io_fail()) return NULL;
   G_tmp_open++; G_tmp_created = 1; G_tmp_removed = 0; G_tmp_flushed = 0; return G_tmp_fp;
